@@ -44,12 +44,13 @@ class Group(VC):
     property_id = "C14"
     crate = GROUP
 
-    def __init__(self, variant, nadd=2, nrem=1):
-        self.variant, self.nadd, self.nrem = variant, nadd, nrem
-        self.name = f"C14.group.{variant}" + (f"[add<={nadd},remove<={nrem}]" if variant == "UpdateMembers" else "")
+    def __init__(self, variant, nadd=2, nrem=1, large=0):
+        self.variant, self.nadd, self.nrem, self.large = variant, nadd, nrem, large
+        self.name = f"C14.group.{variant}" + (f"[add<={nadd},remove<={nrem}]" if variant == "UpdateMembers" else "") + (f"[{large} members]" if large else "")
 
     def run(self, I, ctx, ob):
-        U = group_state(I, ctx, GROUP, n=2)
+        # large: a group of 12 present members (more than a default ListMembers page), one hook: re-weigh one member and remove another
+        U = group_state(I, ctx, GROUP, n=self.large, nhooks=1, large=True) if self.large else group_state(I, ctx, GROUP, n=2)
         ctx.assume(ctx.storage["total"].value == members_sum(ctx.storage))
         env, info = mk_env(I, ctx), mk_info(I, ctx)
         sender = info.get("sender")
@@ -58,6 +59,15 @@ class Group(VC):
         m = I.force(ctx, msg)
         if self.variant == "UpdateMembers":
             m.get("add").bound = self.nadd; m.get("remove").bound = self.nrem
+            if self.large:
+                # the touched members are any of the first / last two of the group (decided here so that string identities are concrete)
+                pick = [0, 1, self.large - 2, self.large - 1]
+                ia = pick[ctx.choose([True] * 4, "member to re-weigh")]
+                ir = pick[ctx.choose([True] * 4, "member to remove")]
+                add = Struct("Member", [U[ia], ctx.fresh_int("add.weight", 0, U64)], ["addr", "weight"])
+                f_ = list(m.fields)
+                f_[m.names.index("add")] = VecV([add]); f_[m.names.index("remove")] = VecV([U[ir]])
+                m = EnumV(m.ty, m.variant, f_, m.names)
         outcome, r, pre = call_entry(I, ctx, ob, GROUP, "execute", "execute", [make_deps(), env, info, m], env, info, m, "msg::ExecuteMsg", GROUP)
         if outcome != "Ok": return
         post = ctx.storage
@@ -102,6 +112,7 @@ class Group(VC):
 
 def vcs(tier):
     out = [Group(v) for v in ("UpdateAdmin", "AddHook", "RemoveHook")] + [Group("UpdateMembers", 2, 1), Group("UpdateMembers", 1, 2)]
+    out.append(Group("UpdateMembers", 1, 1, large=12))
     try:
         from . import c14_stake
         out += c14_stake.vcs(tier)
@@ -110,6 +121,7 @@ def vcs(tier):
     return out
 
 
-BOUNDS = {"members with state": 2, "hooks": "<= 2", "add list": "<= 2", "remove list": "<= 2 (with add <= 1)", "weights": "full u64"}
+BOUNDS = {"large group": "12 concrete members, all present, symbolic weights, one hook: re-weigh and remove any of the first / last two",
+          "members with state": 2, "hooks": "<= 2", "add list": "<= 2", "remove list": "<= 2 (with add <= 1)", "weights": "full u64"}
 OUTSIDE = "longer add/remove/hook lists (uniform loops); snapshot bookkeeping is C09's subject"
 ASSUMPTIONS = ["TOTAL = sum of member weights in the pre-state (C09's invariant)", "hook contracts' reactions are outside the group (only the emitted messages are checked)"]
